@@ -39,8 +39,7 @@ class DepOrderSpec:
         def exprs(it_, c, a):
             return PyIter(iter([tup(scopes.idx(i), RefV(spec.exprs, i)) for i in range(len(spec.exprs))]))
         it.models['ModuleScope::declarations'] = declarations
-        it.models['<dyn DefDatabase as DefDatabase>::body'] = body
-        it.models['DefDatabase::body'] = body
+        it.models['<DefDatabase as DefDatabase>::body'] = body
         it.models['Body::exprs'] = exprs
         it.models['InternId::as_u32'] = lambda it_, c, a: models.deref(a[0]).fields[0] if isinstance(models.deref(a[0]), Agg) else NotImplemented
         self.edges = None
